@@ -69,6 +69,21 @@ def router_tests():
     return tests, noargs
 
 
+def contact_field_type_bug() -> bool:
+    """does ContactFieldReference.render assign the bare name `type` (the builtin) to
+    render_dict["type"]?  (F-C05-a; False once the source says `self.type`)"""
+    mod = _parse("rapidpro/models/common.py")
+    for n in ast.walk(mod):
+        if isinstance(n, ast.ClassDef) and n.name == "ContactFieldReference":
+            for m in n.body:
+                if isinstance(m, ast.FunctionDef) and m.name == "render":
+                    for a in ast.walk(m):
+                        if (isinstance(a, ast.Assign) and isinstance(a.targets[0], ast.Subscript)
+                                and isinstance(a.targets[0].slice, ast.Constant) and a.targets[0].slice.value == "type"):
+                            return isinstance(a.value, ast.Name) and a.value.id == "type"
+    raise KeyError("ContactFieldReference.render: assignment to render_dict['type'] not found")
+
+
 def tables() -> str:
     pairs = action_map()
     tests, noargs = router_tests()
@@ -78,5 +93,6 @@ def tables() -> str:
         "def actionPassThrough : List (List Char) := " + lean_str_list([k for k, c in pairs if c in pt]) + "\n"
         "def routerTests : List (List Char) := " + lean_str_list(tests) + "\n"
         "def routerNoArgTests : List (List Char) := " + lean_str_list(noargs) + "\n"
+        "def contactFieldTypeBug : Bool := " + ("true" if contact_field_type_bug() else "false") + "\n"
         "def actionClasses : List (List Char × List Char) := [" + ", ".join(f"({lean_str(k)}, {lean_str(c)})" for k, c in pairs) + "]\n"
     )
